@@ -225,15 +225,29 @@ impl Scenario for Memo {
                     }
                     A::MakeBind => {
                         // the closure calls the memoised function: key 0 or 1 by a predicate of the lhs
-                        let mut m = w.memo_for_bind.take().unwrap();
+                        let m = Rc::new(RefCell::new(w.memo_for_bind.take().unwrap()));
                         let fc = w.from_closure.clone();
                         let (calls, probe) = (w.calls.clone(), w.probe.clone());
+                        // plan: the call sits directly in the closure, or in the closure of a bind built inside it
+                        let nested = choose(2) == 1;
+                        op_log(format!("(memoised call {} the bind closure)", if nested { "in a bind nested inside" } else { "directly in" }));
+                        let inner_lhs = w.vars[2].0.watch();
                         let b = w.sel.0.bind(move |s: &SV| {
                             let k = if decide_pred(0, &[s.clone()]) { 0 } else { 1 };
-                            let n = checked_call(&mut m, &calls, &probe, k, "inside a bind closure");
-                            fc.borrow_mut().push((k, n.clone()));
-                            cover("memoised-call-inside-bind-closure");
-                            n
+                            if nested {
+                                let (m, fc, calls, probe) = (m.clone(), fc.clone(), calls.clone(), probe.clone());
+                                cover("memoised-call-inside-nested-bind-closure");
+                                inner_lhs.bind(move |_| {
+                                    let n = checked_call(&mut m.borrow_mut(), &calls, &probe, k, "inside a nested bind closure");
+                                    fc.borrow_mut().push((k, n.clone()));
+                                    n
+                                })
+                            } else {
+                                let n = checked_call(&mut m.borrow_mut(), &calls, &probe, k, "inside a bind closure");
+                                fc.borrow_mut().push((k, n.clone()));
+                                cover("memoised-call-inside-bind-closure");
+                                n
+                            }
                         });
                         w.bind = Some(b);
                     }
@@ -324,3 +338,121 @@ impl Scenario for Memo {
 
 #[allow(dead_code)]
 fn _unused(_: Cell<u32>) {}
+
+/// The memoised function is itself created inside a bind closure (its nodes belong to that run of
+/// the bind) and handed out together with the node it returned. While that node is held, the
+/// function returns it for its key without running the underlying function - also after the bind
+/// has re-run and the node has become invalid; once it is released and a stabilise has run, the
+/// next call runs the function again.
+pub struct MemoMadeInClosure {
+    pub len: usize,
+}
+
+type Memoised = Box<dyn FnMut(usize) -> Incr<SV>>;
+
+impl Scenario for MemoMadeInClosure {
+    fn name(&self) -> String {
+        "C20/memoised_inside_bind_closure".into()
+    }
+    fn run(&self) {
+        let state = IncrState::new();
+        let x0 = fresh();
+        let x = state.var(x0);
+        let s0 = fresh();
+        let sel = state.var(s0);
+        // per run of the closure: (memoised function, number of underlying calls)
+        let escaped: Rc<RefCell<Vec<(Memoised, Rc<Cell<u32>>)>>> = Rc::new(RefCell::new(vec![]));
+        let esc = escaped.clone();
+        let xw = x.watch();
+        let b = sel.binds(move |ws, s: &SV| {
+            let calls = Rc::new(Cell::new(0u32));
+            let (c2, xw2, cap) = (calls.clone(), xw.clone(), s.clone());
+            let mut m = ws.upgrade().unwrap().weak_memoize_fn(move |k: usize| {
+                c2.set(c2.get() + 1);
+                let cap = cap.clone();
+                xw2.map(move |v| app(30 + k as u16, &[cap.clone(), v.clone()]))
+            });
+            let n = m(0);
+            esc.borrow_mut().push((Box::new(m), calls));
+            n
+        });
+        let keep = ManuallyDrop::new((state, x, sel, b, escaped));
+        let r = catch(|| {
+            let (state, _x, sel, b, escaped) = &*keep;
+            let bo = b.observe();
+            state.stabilise();
+            // the harness works with the function memoised by the first run of the closure
+            let (mut m, calls) = escaped.borrow_mut().remove(0);
+            let mut held: Option<Incr<SV>> = None;
+            let mut reran = false;
+            for _ in 0..self.len {
+                let k = choose(4);
+                match k {
+                    0 => {
+                        if reran && held.is_none() {
+                            // a cache miss would run the function in the scope of a bind run that is over: the
+                            // engine refuses that with a panic, and the property says nothing about it
+                            continue;
+                        }
+                        op_log("Call".into());
+                        let before = calls.get();
+                        let n = m(0);
+                        match &held {
+                            Some(h) => {
+                                cover(if reran { "call-with-held-node-after-the-bind-re-ran" } else { "call-with-held-node" });
+                                if calls.get() != before {
+                                    violation("C20/function-invoked-for-live-key", format!("the node of key 0 is still held{}, yet the underlying function ran again", if reran { " (the bind that memoised the function has re-run since)" } else { "" }));
+                                }
+                                if h != &n {
+                                    violation("C20/different-node-for-live-key", "key 0 has a live node but the memoised function returned another node".into());
+                                }
+                            }
+                            None => {
+                                // (the bind still references the node: a hit)
+                                if calls.get() != before {
+                                    violation("C20/function-invoked-for-live-key", "the bind that memoised the function still uses the node of key 0 as its result, yet the underlying function ran again".into());
+                                }
+                                held = Some(n);
+                            }
+                        }
+                    }
+                    1 => {
+                        op_log("WriteSel".into());
+                        sel.set(fresh());
+                    }
+                    2 => {
+                        op_log("Stabilise".into());
+                        let runs = escaped.borrow().len();
+                        state.stabilise();
+                        if escaped.borrow().len() != runs {
+                            reran = true;
+                            // later runs memoise their own functions: only the first one is exercised
+                            escaped.borrow_mut().clear();
+                        }
+
+                    }
+                    _ => {
+                        op_log("DropHeld".into());
+                        held = None;
+                    }
+                }
+            }
+            drop(bo);
+        });
+        let k = ManuallyDrop::into_inner(keep);
+        match r {
+            Ok(()) => {
+                if let Err(msg) = catch(move || drop(k)) {
+                    crate::exec::note_panic(msg);
+                }
+            }
+            Err(msg) => {
+                std::mem::forget(k);
+                if msg.rsplit(" @ ").next().map_or(false, |l| l.starts_with("src/")) {
+                    panic!("symx: harness panicked: {msg}");
+                }
+                violation("C20/panic", msg);
+            }
+        }
+    }
+}
